@@ -21,6 +21,10 @@ claimed = {
          "Every potentially panicking instruction reachable from reading arbitrary text or applying a read diff is an obligation discharged by a named schema or reported; this is a proof-style inventory over all inputs for the stated scope (Diff and the renderers are outside it).", "4 C13"),
  "C14": ("static analysis: control/data-flow contract rules over both package main (exit discipline, output sinks, flag/mode tables by flag-value pruning, input provenance, error routing)",
          "The CLI contract is decided as facts about every path of both binaries: exit codes, -o exclusivity, printed value = library rendering, flag→option and mode→reader/renderer tables for every documented value, input roles, error routing. Content-level round trips are not decided.", "4 C14"),
+ "C07": ("static analysis: dominator/cut-set rule on hunk emission (R-NOEMPTY), lookup-miss control dependence (R-SETMEMBER), provenance slices (R-PROV), path freshness (R-PATHFRESH)",
+         "Necessary structural conditions of `every hunk is a real difference` are decided on every path of the diff functions; per-value statements (removed differs from added, leave-one-out redundancy) are not.", "4 C07"),
+ "C08": ("static analysis: cut-set / loop-verification rule R-EXPECT over jsonSet.patch and jsonMultiset.patch, R-PATCHRESULT, R-FWD, R-KINDS, R-IDENTUSE",
+         "Every success return of a set/multiset hunk is shown to lie behind the lookup and comparison of each removed member (or the count-underflow test), with error-only failure sides; the dropped outcome of the keyed-member patch is a genuine defect recorded as a known finding. Order independence on concrete values is not decided.", "4 C08"),
 }
 na = {}
 props = [json.loads(l) for l in open(os.path.join(V, "properties.jsonl"))]
